@@ -1264,10 +1264,14 @@ fn ring_family(name: &str, closers: bool, droppers: bool) -> Vec<Program> {
         ends_r.push(vec![Op::DropHandle(Side::S)]);
         ends_s.push(vec![Op::DropHandle(Side::R)]);
     }
-    for k in 0..=17usize {
+    for (cap, k) in (0..=17usize).map(|k| (Cap::B(0), k)).chain((0..=9usize).map(|k| (Cap::B(1), k))) {
         for (recv_side, ends) in [(true, &ends_r), (false, &ends_s)] {
             for end in ends.iter() {
                 let mut ops = Vec::new();
+                if !recv_side && cap == Cap::B(1) {
+                    // senders wait behind a full buffer
+                    ops.push(Op::TrySend);
+                }
                 for _ in 0..k {
                     if recv_side {
                         ops.extend([Op::FRecv(3), Op::Poll(3, 0), Op::TrySend, Op::Poll(3, 0), Op::FDrop(3)]);
@@ -1286,12 +1290,12 @@ fn ring_family(name: &str, closers: bool, droppers: bool) -> Vec<Program> {
                 let t = spec(&ops, A, A);
                 let e = env(2, 1, None, Some(1));
                 let nm = format!(
-                    "{name}/B(0)/DL/{}x{}+3,{}",
+                    "{name}/{cap:?}/DL/{}x{}+3,{}",
                     k,
                     if recv_side { "recv-handover" } else { "send-handover" },
                     end.iter().map(opname).collect::<Vec<_>>().join(",")
                 );
-                ps.push(mk(nm, Cap::B(0), Class::DL, A, Conv::Clone, vec![t], e));
+                ps.push(mk(nm, cap, Class::DL, A, Conv::Clone, vec![t], e));
             }
         }
     }
@@ -1360,6 +1364,39 @@ fn buffer_ring_family(name: &str, class: Class) -> Vec<Program> {
 /// drops the only sender / closes.
 fn ring_family_blocked(name: &str) -> Vec<Program> {
     let mut ps = Vec::new();
+    // six waiters on a buffered channel (its wait list starts with room for
+    // four and has to grow): four pending futures of thread 0 and two blocked
+    // receivers, after k hand-overs
+    for k in [0usize, 1, 2, 3] {
+        for end in [Op::DropHandle(Side::S), Op::Close(Side::S)] {
+            let mut ops = Vec::new();
+            for _ in 0..k {
+                ops.extend([Op::FRecv(3), Op::Poll(3, 0), Op::TrySend, Op::Poll(3, 0), Op::FDrop(3)]);
+            }
+            for s in 0..4u8 {
+                ops.extend([Op::FRecv(s), Op::Poll(s, 0)]);
+            }
+            let pre = ops.len();
+            ops.push(end);
+            for s in 0..4u8 {
+                ops.push(Op::Poll(s, 0));
+            }
+            let t0 = spec(&ops, A, A);
+            let t1 = spec(&[Op::Recv], S, S);
+            let t2 = spec(&[Op::Recv], S, S);
+            let mut p = mk(
+                format!("{name}-grow/B(1)/L/{}xrecv-handover+4|Recv|Recv,{}", k, opname(&end)),
+                Cap::B(1),
+                Class::L,
+                A,
+                Conv::CloneOther,
+                vec![t0, t1, t2],
+                env(2, 1, None, Some(2)),
+            );
+            p.pre = pre;
+            ps.push(p);
+        }
+    }
     for k in 0..=17usize {
         for end in [Op::DropHandle(Side::S), Op::Close(Side::S)] {
             let mut ops = Vec::new();
